@@ -221,11 +221,11 @@ def reference_iterates(job, U, v0, n, gain0=None):
     """Reference recursion of the solver's documented rule under the sweep abstraction."""
     name = job["solver"]
     its = [list(v0)]
-    gains = [0]
+    gains = [v0[-1]]  # RVI: the gain subtracted in a sweep is the last state's value before it
     for i in range(n):
         nv = U.apply_terms(its[-1])
         if name == "rvi":
-            g_prev = gains[-1] if (i > 0 or gain0 is None) else gain0
+            g_prev = gains[-1]
             nv = [zx.sub(x, g_prev) for x in nv]
             gains.append(nv[-1])
         its.append(nv)
@@ -524,7 +524,7 @@ def sequence_replay(job, g, e, V0, outs):
         return True, f"solve raised {type(ex).__name__}: {ex}"
     gg = 1.0 if name == "rvi" else g
     thr = e if (name in ("rvi", "pvi") or gg == 1) else (np.inf if gg == 0 else e * (1 - gg) / gg)
-    v, it, gain, n = V0.copy(), 0, 0.0, 0
+    v, it, gain, n = V0.copy(), 0, float(V0[-1]), 0
     hist = [V0.copy()]
     period = 2
     for k in job["ks"]:
